@@ -69,6 +69,7 @@ def task_enum(ctx, col, shard, L):
 
 def task_truncgrid(ctx, col, shard):
     enum_search(ctx, col, (s for i, s in enumerate(hist.trunc_grid_specs()) if i % NSHARDS == shard), lambda s: execute(ctx, s))
+    enum_search(ctx, col, (s for i, s in enumerate(hist.zero_extent_specs()) if i % NSHARDS == shard), lambda s: execute(ctx, s))
 
 
 def task_bigoperand(ctx, col, shard):
